@@ -107,8 +107,26 @@ def check_c01(opts):
                 continue        # the plain pipeline itself raises on this input (e.g. mean of nothing): outside the property
             if mux != exp:
                 fails.append({'pipeline': names, 'input': items, 'key': 'i % 3', 'expected_per_group(plain)': exp, 'got(mux)': mux})
-    return result('e2e.C01.mux_vs_plain', f'{len(pipes)} pipelines (all singles, sampled pairs/triples of {len(OPS)} operators) x {len(inputs)} inputs, key = i % 3',
-                  evals, len(distinct), fails, False, t0)
+    # two levels of keys: group_by(i % 2) > group_by(i % 3): consecutive items with the same inner key under different outer keys, and vice versa
+    nested_inputs = [[0, 3, 6, 1, 4, 2], [1, 4, 7, 2, 5, 8, 3], [6, 3, 0, 9, 2, 5, 4, 1], [3, 0, 1, 4, 9, 6]]
+    for pipe in [[o] for o in OPS]:
+        names = [n for n, _ in pipe]
+        for items in nested_inputs:
+            leaves = [leaf for g in group_by_spec(items, lambda i: i % 2) for leaf in group_by_spec(g, lambda i: i % 3)]
+            try:
+                plain = [run_plain(g, *[f() for _, f in pipe], ops.to_list()) for g in leaves]
+                mux = run_mux(items, rs.ops.group_by(lambda i: i % 2, rx.pipe(rs.ops.group_by(lambda i: i % 3, rx.pipe(*[f() for _, f in pipe], rs.data.to_list())))))
+            except Exception as ex:
+                plain, mux = 'exception', f'{type(ex).__name__}: {ex}'
+            evals += 1; distinct.add((tuple(names), 'nested', tuple(items)))
+            if any(isinstance(p_, tuple) and p_ and p_[0] == 'ERROR' for p_ in plain):
+                continue
+            exp = [p_[0] if isinstance(p_, list) and p_ else p_ for p_ in plain]
+            # groups complete in order of first appearance within each outer group, outer groups in order of first appearance
+            if not isinstance(mux, list) or sorted(map(repr, mux)) != sorted(map(repr, exp)):
+                fails.append({'pipeline': names, 'input': items, 'key': 'group_by(i % 2) > group_by(i % 3)', 'expected_per_leaf_group(plain)': exp, 'got(mux)': mux})
+    return result('e2e.C01.mux_vs_plain', f'{len(pipes)} pipelines (all singles, sampled pairs/triples of {len(OPS)} operators) x {len(inputs)} inputs, key = i % 3; '
+                  f'every single operator under group_by(i % 2) > group_by(i % 3) x {len(nested_inputs)} inputs', evals, len(distinct), fails, False, t0)
 
 
 def check_c02(opts):
@@ -141,6 +159,9 @@ def check_c02(opts):
                  [g for w in [items[i:i + 2] for i in range(0, len(items), 2)] for g in group_by_spec(w, lambda i: i % 2)]),
                 ('split(i<3)>group_by(const)', lambda p: rs.data.split(lambda i: i < 3, rs.ops.group_by(lambda i: 0, p)),
                  [g for w in split_spec(items, lambda i: i < 3) for g in group_by_spec(w, lambda i: 0)]),
+                # two levels of keys: consecutive items with the same inner key under different outer keys
+                ('group_by(i%2)>group_by(i//2%2)', lambda p: rs.ops.group_by(lambda i: i % 2, rs.ops.group_by(lambda i: i // 2 % 2, p)),
+                 [g for w in group_by_spec(items, lambda i: i % 2) for g in group_by_spec(w, lambda i: i // 2 % 2)]),
             ):
                 got = run_mux(items, wrap(rx.pipe(f(), rs.data.to_list())))
                 exp = [alone(p)[0] if alone(p) else None for p in parts]
@@ -248,7 +269,9 @@ def check_c04(opts):
     t0 = time.time()
     fails = []; evals = 0; distinct = set()
     keyfns = [('i%3', lambda i: i % 3), ('tuple', lambda i: (i % 2, 'k')), ('bigint', lambda i: 10 ** 20 + i % 2), ('str', lambda i: 'k' + str(i % 3)),
-              ('float', lambda i: float(i % 2)), ('obj', lambda i: Big(i % 3)), ('const', lambda i: 0), ('id', lambda i: i)]
+              ('float', lambda i: float(i % 2)), ('obj', lambda i: Big(i % 3)), ('const', lambda i: 0), ('id', lambda i: i),
+              # keys that are == across types: 1 == 1.0 == True, 0 == 0.0 == False == -0.0 (one group per == class)
+              ('mixed_types', lambda i: [1, 1.0, True, 0][i % 4] if i % 2 else [0, False, -0.0, 0.0][i % 4]), ('int_or_float', lambda i: (i % 2) if i < 2 else float(i % 2))]
     for n in range(0, 9):
         for items in {tuple(p) for p in itertools.product(range(4), repeat=min(n, 4))} if n <= 4 else [tuple(range(n)), tuple([3, 1, 2] * (n // 3))]:
             items = list(items)
@@ -269,7 +292,7 @@ def check_c04(opts):
             evals += 1; distinct.add((wn, tuple(items)))
             if got != exp:
                 fails.append({'pipeline': f'{wn} > group_by(category) > to_list', 'input': items, 'expected (per window, groups in order of first appearance)': exp, 'got': got})
-    return result('e2e.C04.group_by', 'all sequences over {0..3} of length <= 4 plus longer ones, 8 key mappers incl. equal-not-identical keys; group_by nested in split / roll / group_by over 3 windows',
+    return result('e2e.C04.group_by', 'all sequences over {0..3} of length <= 4 plus longer ones, 10 key mappers incl. equal-not-identical keys and keys equal across types (1 / 1.0 / True); group_by nested in split / roll / group_by over 3 windows',
                   evals, len(distinct), fails, False, t0)
 
 
@@ -340,27 +363,61 @@ def check_c06(opts):
 
 def check_c07(opts):
     rx, ops, rs = _imports()
+    import datetime as dt
     t0 = time.time()
     fails = []; evals = 0
     closings = [None, lambda i: i[1]]
-    for n in range(0, 5):
-        for gaps in itertools.product(range(0, 4), repeat=n):
-            ts = list(itertools.accumulate(gaps))
-            for flags in ([tuple([False] * n)] + ([tuple(f) for f in itertools.product([False, True], repeat=n)] if n <= 3 else [])):
-                items = list(zip(ts, flags))
-                for a in (None, 3, 5):
-                    for ia in (None, 2):
-                        for cm in closings:
-                            for inc in (True, False):
-                                if cm is None and not inc: continue
-                                if cm is None and any(flags): continue
-                                got = run_mux(items, rs.data.time_split(lambda i: i[0], a, ia, cm, inc, [rs.data.to_list()]))
-                                exp = [w for w in time_split_spec(items, lambda i: i[0], a, ia, cm, inc)]
-                                evals += 1
-                                # the real operator opens the window after a closing item eagerly: a trailing empty window is completed empty
-                                if got != exp and got != [w for w in exp if w] and [w for w in got if w] != [w for w in exp if w]:
-                                    fails.append({'active': a, 'inactive': ia, 'closing': cm is not None, 'include': inc, 'input': items, 'expected': exp, 'got': got})
-    return result('e2e.C07.time_split', 'all gap sequences over {0..3} of length <= 4 x closing flags x timeouts {None,3,5}x{None,2}', evals, evals, fails, True, t0)
+    base = dt.datetime(2024, 2, 28, 23, 59, 58)
+    # time_mapper returns datetime objects and timeouts are timedeltas (the documented API); three time units so that neither
+    # sub-second parts nor whole days may be dropped from a duration
+    units = [('1 s', dt.timedelta(seconds=1)), ('0.4 s', dt.timedelta(milliseconds=400)), ('1 day', dt.timedelta(days=1))]
+    for uname, unit in units:
+        for n in range(0, 5):
+            for gaps in itertools.product(range(0, 4), repeat=n):
+                ts = [base + k * unit for k in itertools.accumulate(gaps)]
+                flag_sets = [tuple([False] * n)] + ([tuple(f) for f in itertools.product([False, True], repeat=n)] if n <= 3 else [])
+                if uname != '1 s':
+                    flag_sets = flag_sets[:1] + flag_sets[-1:]
+                for flags in flag_sets:
+                    items = list(zip(ts, flags))
+                    for a in (None, 3, 5):
+                        for ia in (None, 2):
+                            for cm in closings:
+                                for inc in (True, False):
+                                    if cm is None and not inc: continue
+                                    if cm is None and any(flags): continue
+                                    A = None if a is None else a * unit; IA = None if ia is None else ia * unit
+                                    try:
+                                        got = run_mux(items, rs.data.time_split(lambda i: i[0], A, IA, cm, inc, [rs.data.to_list()]))
+                                    except Exception as ex:
+                                        got = ('ERROR', f'{type(ex).__name__}: {ex}')
+                                    exp = [w for w in time_split_spec(items, lambda i: i[0], A, IA, cm, inc)]
+                                    evals += 1
+                                    # the real operator opens the window after a closing item eagerly: a trailing empty window is completed empty
+                                    if got != exp and got != [w for w in exp if w] and (not isinstance(got, list) or [w for w in got if w] != [w for w in exp if w]):
+                                        show = lambda ws: [[(round((x[0] - base) / unit, 3), x[1]) for x in w] for w in ws] if isinstance(ws, list) else ws
+                                        fails.append({'time unit': uname, 'active': a, 'inactive': ia, 'closing': cm is not None, 'include': inc,
+                                                      'input (offsets in units, closing flag)': show([items])[0], 'expected': show(exp), 'got': show(got)})
+    # interleaved keys (group_by > time_split) and re-created keys (split > time_split): each key / segment is windowed on its own
+    unit = dt.timedelta(seconds=1)
+    for n in range(1, 6):
+        for gaps in itertools.product((0, 1, 3), repeat=n):
+            ts = [base + k * unit for k in itertools.accumulate(gaps)]
+            for keys in (tuple(j % 2 for j in range(n)), tuple((j // 2) % 2 for j in range(n))):
+                items = [(t, False, k) for t, k in zip(ts, keys)]
+                for wn, wrap, parts in (('group_by(key)', lambda p_: rs.ops.group_by(lambda i: i[2], p_), group_by_spec(items, lambda i: i[2])),
+                                        ('split(key)', lambda p_: rs.data.split(lambda i: i[2], p_), split_spec(items, lambda i: i[2]))):
+                    try:
+                        got = run_mux(items, wrap(rx.pipe(rs.data.time_split(lambda i: i[0], 4 * unit, 2 * unit, pipeline=[rs.data.to_list()]), rs.data.to_list())))
+                    except Exception as ex:
+                        got = ('ERROR', f'{type(ex).__name__}: {ex}')
+                    exp = [[w for w in time_split_spec(part, lambda i: i[0], 4 * unit, 2 * unit, None, True)] for part in parts]
+                    evals += 1
+                    if got != exp:
+                        show = lambda x: str(x).replace('datetime.datetime', 'dt')[:300]
+                        fails.append({'pipeline': f'{wn} > time_split(active 4 s, inactive 2 s) > to_list', 'input': show(items), 'expected (each key / segment alone)': show(exp), 'got': show(got)})
+    return result('e2e.C07.time_split', 'interleaved keys under group_by and re-created keys under split (gaps {0,1,3} s, length <= 5); datetime timestamps, timedelta timeouts, time units {1 s, 0.4 s, 1 day}: all gap sequences over {0..3} units of length <= 4 x closing flags x '
+                  'timeouts {None,3,5}x{None,2} units', evals, evals, fails, True, t0)
 
 
 def check_c08(opts):
@@ -369,7 +426,7 @@ def check_c08(opts):
     fails = []; evals = 0
     branches = [('id', lambda: rx.pipe(rs.ops.map(lambda i: i))), ('even', lambda: rx.pipe(rs.ops.filter(lambda i: i % 2 == 0))),
                 ('count', lambda: rx.pipe(rs.ops.count())), ('sum_reduce', lambda: rx.pipe(rs.math.sum(reduce=True))), ('x10', lambda: rx.pipe(rs.ops.map(lambda i: i * 10))),
-                ('gt2', lambda: rx.pipe(rs.ops.filter(lambda i: i > 2)))]
+                ('gt2', lambda: rx.pipe(rs.ops.filter(lambda i: i > 2))), ('none_if_odd', lambda: rx.pipe(rs.ops.map(lambda i: None if i % 2 else i)))]
     def branch_outputs(items, mk):
         """per source event, what the branch emits (plain semantics, item by item, plus at completion)"""
         import rx
@@ -381,7 +438,7 @@ def check_c08(opts):
         cur = []; subj.on_completed(); outs.append(list(cur))
         return outs
     for items in ([], [1], [1, 2, 3, 4], [2, 4, 1, 3, 6, 5]):
-        for bs in itertools.chain(itertools.combinations(branches, 2), [(branches[0], branches[1], branches[4]), (branches[1], branches[5], branches[2], branches[0])]):
+        for bs in itertools.chain(itertools.combinations(branches, 2), [(branches[0], branches[1], branches[4]), (branches[1], branches[5], branches[2], branches[0]), (branches[6], branches[2], branches[0])]):
             per = [branch_outputs(items, mk) for _, mk in bs]
             for join in ('merge', 'zip', 'combine_latest'):
                 n = len(bs)
@@ -448,7 +505,7 @@ def check_c08(opts):
                     fails.append({'pipeline': f'dist.describe(quantiles={qs})', 'mode': mode, 'expected fields': names, 'expected': str(exp)[:300], 'got': str(got)[:300]})
     except ImportError:
         pass
-    return result('e2e.C08.tee_map', '2-4 branches from 6 pipelines x 3 joins x mux/plain x 4 inputs; nested tee_map in first / last / middle branch; tee_map with unbalanced branches inside '
+    return result('e2e.C08.tee_map', '2-4 branches from 7 pipelines (one emits None values) x 3 joins x mux/plain x 4 inputs; nested tee_map in first / last / middle branch; tee_map with unbalanced branches inside '
                   'roll(3,3) vs each window alone; dist.describe vs the tee_map of the requested metrics', evals, evals, fails, False, t0)
 
 
@@ -645,8 +702,19 @@ def check_c13(opts):
     evals += 1
     if got != [1.0, 0.5, 0.5, 0.75, 0.75, 1.0]:
         fails.append({'pipeline': 'group_by > map(1/x) > error.map(0.0) > scan(sum)', 'input': [1, 2, 0, 4, 0, 4], 'expected': [1.0, 0.5, 0.5, 0.75, 0.75, 1.0], 'got': got})
+    # the same for every raising operator (the mux error of each of them carries the store)
+    src = [1, 2, 0, 4, 0, 5]
+    for opname, mk in (('map', lambda: rs.ops.map(boom([0]))), ('starmap', lambda: rx.pipe(rs.ops.map(lambda i: (i,)), rs.ops.starmap(boom([0])))),
+                       ('filter', lambda: rs.ops.filter(lambda i: boom([0])(i) is not None))):
+        got = run_mux(src, rs.ops.group_by(lambda i: i % 2, rx.pipe(mk(), rs.error.map(lambda e: 100), rs.ops.scan(lambda a, i: a + i, 0))))
+        exp = []; tot = {0: 0, 1: 0}
+        for i in src:
+            tot[i % 2] += 100 if i == 0 else i; exp.append(tot[i % 2])
+        evals += 1
+        if got != exp:
+            fails.append({'pipeline': f'group_by(i%2) > {opname}(raises on 0) > error.map(100) > scan(sum)', 'input': src, 'expected': exp, 'got': got})
     return result('e2e.C13.errors', '4 operators x 6 failing subsets x {ignore, error.map, router, none}; all key sequences over {a,b} of length <= 5 x all failing subsets of size <= 2 through scan+ignore; '
-                  'stateful operator after error.map', evals, evals, fails, False, t0)
+                  'stateful operator after error.map for map / starmap / filter', evals, evals, fails, False, t0)
 
 
 # ---------------------------------------------------------------------------------------------- C12 numeric accuracy
@@ -664,6 +732,17 @@ def check_c12(opts):
         return {'sum': s, 'mean': m, 'min': min(fx) if n else None, 'max': max(fx) if n else None,
                 'variance': (ss / (n - 1)) if n >= 2 else Fraction(0), 'formal.variance': (ss / n) if n >= 1 else Fraction(0), 'ss': ss, 'n': n,
                 'abs': sum((abs(x) for x in fx), Fraction(0)), 'sumsq': sum((x * x for x in fx), Fraction(0))}
+    def exact_prefixes(xs):
+        """exact(xs[:i+1]) for every i, computed incrementally (sum of squared deviations = sum x^2 - (sum x)^2 / n, exact in rationals)"""
+        out = []; s = Fraction(0); sq = Fraction(0); ab = Fraction(0); mn = mx = None
+        for i, x in enumerate(xs):
+            f = Fraction(x); n = i + 1
+            s += f; sq += f * f; ab += abs(f)
+            mn = f if mn is None or f < mn else mn; mx = f if mx is None or f > mx else mx
+            ss = sq - s * s / n
+            out.append({'sum': s, 'mean': s / n, 'min': mn, 'max': mx, 'variance': (ss / (n - 1)) if n >= 2 else Fraction(0), 'formal.variance': ss / n, 'ss': ss, 'n': n,
+                        'abs': ab, 'sumsq': sq})
+        return out
     def close(got, want, scale, n, what):
         if want is None: return got is None
         if got is None: return False
@@ -680,7 +759,7 @@ def check_c12(opts):
     aggs = [('sum', lambda r: rs.math.sum(reduce=r)), ('mean', lambda r: rs.math.mean(reduce=r)), ('min', lambda r: rs.math.min(reduce=r)), ('max', lambda r: rs.math.max(reduce=r)),
             ('variance', lambda r: rs.math.variance(reduce=r)), ('formal.variance', lambda r: rs.math.formal.variance(reduce=r))]
     for xs in seqs + fam:
-        ex_all = [exact(xs[:i + 1]) for i in range(len(xs))]
+        ex_all = exact_prefixes(xs)
         for name, mk in aggs:
             for mode in ('mux', 'plain'):
                 stream = run_mux(xs, mk(False)) if mode == 'mux' else run_plain(xs, mk(False))
@@ -762,7 +841,7 @@ def check_c14(opts):
         for step in range(rnd.randint(1, 16)):
             idx = rnd.choice([0, 1, 4]); key = (idx, (0,))
             op = rnd.choice(['add_key', 'add_map', 'get_map', 'iterate_map', 'add_map', 'del_add'])
-            mk = rnd.choice(['a', 'b', 10 ** 20 + 1, (1, 2), 1.0])
+            mk = rnd.choice(['a', 'b', 10 ** 20 + 1, (1, 2), 1.0, 1, True])
             mk = (10 ** 20 + 1) if mk == 10 ** 20 + 1 else mk
             log.append((op, idx, mk))
             evals += 1
